@@ -139,6 +139,12 @@ func (c *ctx) testsNilOf(info *types.Info, is *ast.IfStmt, arg string) bool {
 func (c *ctx) reportsDiagnostic(body *ast.BlockStmt) bool {
 	info := c.inter.TypesInfo
 	found := false
+	// directly: c.errors = append(c.errors, err)
+	astx.Writes(body, func(l ast.Expr, at ast.Node) {
+		if _, f, ok := astx.FieldSel(info, l); ok && f.Type().String() == "[]error" {
+			found = true
+		}
+	})
 	ast.Inspect(body, func(n ast.Node) bool {
 		call, ok := n.(*ast.CallExpr)
 		if !ok {
